@@ -222,6 +222,34 @@ class FilterSuite(Suite):
                 op["map"] = mp
                 ops.append(op)
                 continue
+            if rng.random() < 0.1:
+                # literal lists only (so that the directory-skipping shortcuts are active) naming an entry INSIDE a directory D and a
+                # sibling whose name is D's name plus a byte below '/' ("docker/Dockerfile" and "docker-compose.yml"): in a sorted list
+                # of prefixes the sibling stands between "D" and "D/"
+                pset = set(paths)
+                cands = []
+                for q in paths:
+                    par, _, nm = q.rpartition(b"/")
+                    for d in paths:
+                        dpar, _, dnm = d.rpartition(b"/")
+                        if dpar == par and d != q and nm.startswith(dnm) and len(nm) > len(dnm) and nm[len(dnm)] < 0x2f:
+                            kids = [k for k in paths if k.startswith(d + b"/")]
+                            if kids:
+                                cands.append((q, rng.choice(kids), d))
+                if cands:
+                    esc = lambda c: b"".join(b"\\" + bytes([x]) if x in b"*?[]\\" else bytes([x]) for x in c)
+                    sib, kid, d = rng.choice(cands)
+                    pl2 = [esc(sib), esc(kid)]
+                    if rng.random() < 0.5:
+                        pl2.reverse()
+                    if rng.random() < 0.3:
+                        pl2.append(esc(rng.choice(paths)))
+                    if b"/" not in d and rng.random() < 0.4:
+                        op["exclude"] = [hx(b"*")] + [hx(b"!" + x) for x in pl2]
+                    else:
+                        op["include"] = [hx(x) for x in pl2]
+                    ops.append(op)
+                    continue
             if deep3 and rng.random() < 0.06:
                 # both lists at work on one chain A/D/x: a negation chain in one list (A, !A/D, A/D/x) and a pattern in the other list
                 # that matches one element of the chain itself and none of its ancestors (literal, */b, **/b, class)
